@@ -376,6 +376,19 @@ func c03Check(c c03Case) *Violation {
 			if f.Key == "source" && len(gg) != m {
 				return viol("survival", "%s: source feature dropped by Erase", what)
 			}
+			// a feature made of sites only has no residue to lose: when every site lies strictly outside the erased
+			// region (not even on its edges) the edit does not concern it and it stays
+			if len(res) == 0 && sites && c.N > 0 {
+				outside := true
+				for _, e := range d {
+					if e.Site && e.Pos >= c.I && e.Pos <= c.I+c.N {
+						outside = false
+					}
+				}
+				if outside && len(gg) != m {
+					return viol("survival", "%s: a site-only feature away from the erased region [%d,%d] was dropped by Erase", what, c.I, c.I+c.N)
+				}
+			}
 			if !sites && len(res) > 0 {
 				if survivors == 0 && f.Key != "source" && len(gg) != 0 {
 					return viol("survival", "%s: lost all its residues but was kept by Erase as %s", what, gg[0].Loc)
